@@ -1,0 +1,148 @@
+//go:build verif
+
+// Contracts (machine-checked specifications) for package fr, read by /verif's govc.
+// This file contains comments only; it is compiled only under the build tag "verif".
+
+package fr
+
+//@ func madd0
+//@ props C15
+//@ prelude frint
+//@ ensures hi == (a*b + c) / W
+
+//@ func madd1
+//@ props C15
+//@ prelude frint
+//@ ensures hi*W + lo == a*b + c
+
+//@ func madd2
+//@ props C15
+//@ prelude frint
+//@ ensures hi*W + lo == a*b + c + d
+
+//@ func madd3
+//@ props C15
+//@ prelude frint
+//@ ensures hi*W + lo == (a*b + c + d + e*W) % W2
+
+//@ func _addGeneric
+//@ props C15
+//@ prelude frint
+//@ requires I(*x) < R_MOD && I(*y) < R_MOD
+//@ ensures I(*z) == (I(old(*x)) + I(old(*y))) % R_MOD
+//@ modifies *z
+
+//@ func _doubleGeneric
+//@ props C15
+//@ prelude frint
+//@ requires I(*x) < R_MOD
+//@ ensures I(*z) == (2 * I(old(*x))) % R_MOD
+//@ modifies *z
+
+//@ func _subGeneric
+//@ props C15
+//@ prelude frint
+//@ requires I(*x) < R_MOD && I(*y) < R_MOD
+//@ ensures I(*z) == (I(old(*x)) - I(old(*y))) % R_MOD
+//@ modifies *z
+
+//@ func _negGeneric
+//@ props C15
+//@ prelude frint
+//@ requires I(*x) < R_MOD
+//@ ensures I(*z) == (0 - I(old(*x))) % R_MOD
+//@ modifies *z
+
+//@ func _reduceGeneric
+//@ props C15
+//@ prelude frint
+//@ requires I(*z) < 2 * R_MOD
+//@ ensures I(*z) == I(old(*z)) % R_MOD
+//@ modifies *z
+
+//@ func Element.IsZero
+//@ props C15
+//@ prelude frint
+//@ ensures result == (I(*z) == 0)
+
+//@ func Element.SetZero
+//@ props C15
+//@ prelude frint
+//@ ensures I(*z) == 0 && result == z
+//@ modifies *z
+
+//@ func _mulGeneric
+//@ props C15
+//@ prelude frint
+//@ requires I(*x) < R_MOD && I(*y) < R_MOD
+//@ ensures I(*z) < R_MOD using final, tb3
+//@ ensures (I(*z) * W4) % R_MOD == (I(old(*x)) * I(old(*y))) % R_MOD using final, total, xy
+//@ modifies *z
+//@ at call madd0 0: assert@lz0 (m*Q0 + c[0]) % W == 0 using since(entry)
+//@ at call madd3 0: assert@v0 v == old(x[0]) && m < W using since(entry)
+//@ at call madd3 0: assert@vy0 old(x[0])*old(y[0]) + old(x[0])*old(y[1])*W + old(x[0])*old(y[2])*W2 + old(x[0])*old(y[3])*W3 <= (W-1)*(R_MOD-1) using pre0
+//@ at call madd3 0: ghost mm0 := m
+//@ at call madd3 0: ghost X0 := m*Q3 + c[0] + c[2] + c[1]*W
+//@ at call madd3 0: assert@nov0 X0 < W2 using since(entry)
+//@ at store 14: ghost T0 := (t[0] + t[1]*W + t[2]*W2 + t[3]*W3)
+//@ at store 14: assert@id0 T0*W == 0 + old(x[0])*old(y[0]) + old(x[0])*old(y[1])*W + old(x[0])*old(y[2])*W2 + old(x[0])*old(y[3])*W3 + mm0*R_MOD using since(entry)
+//@ at store 14: assert@tb0 T0 < 2*R_MOD using id0, vy0, v0
+//@ at store 14: mark r1
+//@ at call madd0 1: assert@lz1 (m*Q0 + c[0]) % W == 0 using since(r1)
+//@ at call madd3 1: assert@v1 v == old(x[1]) && m < W using since(entry)
+//@ at call madd3 1: assert@vy1 old(x[1])*old(y[0]) + old(x[1])*old(y[1])*W + old(x[1])*old(y[2])*W2 + old(x[1])*old(y[3])*W3 <= (W-1)*(R_MOD-1) using pre0
+//@ at call madd3 1: ghost mm1 := m
+//@ at call madd3 1: ghost X1 := m*Q3 + c[0] + c[2] + c[1]*W
+//@ at call madd3 1: assert@nov1 X1 < W2 using since(r1), tb0
+//@ at store 29: ghost T1 := (t[0] + t[1]*W + t[2]*W2 + t[3]*W3)
+//@ at store 29: assert@id1 T1*W == T0 + old(x[1])*old(y[0]) + old(x[1])*old(y[1])*W + old(x[1])*old(y[2])*W2 + old(x[1])*old(y[3])*W3 + mm1*R_MOD using since(r1), tb0
+//@ at store 29: assert@tb1 T1 < 2*R_MOD using id1, vy1, v1, tb0
+//@ at store 29: mark r2
+//@ at call madd0 2: assert@lz2 (m*Q0 + c[0]) % W == 0 using since(r2)
+//@ at call madd3 2: assert@v2 v == old(x[2]) && m < W using since(entry)
+//@ at call madd3 2: assert@vy2 old(x[2])*old(y[0]) + old(x[2])*old(y[1])*W + old(x[2])*old(y[2])*W2 + old(x[2])*old(y[3])*W3 <= (W-1)*(R_MOD-1) using pre0
+//@ at call madd3 2: ghost mm2 := m
+//@ at call madd3 2: ghost X2 := m*Q3 + c[0] + c[2] + c[1]*W
+//@ at call madd3 2: assert@nov2 X2 < W2 using since(r2), tb1
+//@ at store 44: ghost T2 := (t[0] + t[1]*W + t[2]*W2 + t[3]*W3)
+//@ at store 44: assert@id2 T2*W == T1 + old(x[2])*old(y[0]) + old(x[2])*old(y[1])*W + old(x[2])*old(y[2])*W2 + old(x[2])*old(y[3])*W3 + mm2*R_MOD using since(r2), tb1
+//@ at store 44: assert@tb2 T2 < 2*R_MOD using id2, vy2, v2, tb1
+//@ at store 44: mark r3
+//@ at call madd0 3: assert@lz3 (m*Q0 + c[0]) % W == 0 using since(r3)
+//@ at call madd3 3: assert@v3 v == old(x[3]) && m < W using since(entry)
+//@ at call madd3 3: assert@vy3 old(x[3])*old(y[0]) + old(x[3])*old(y[1])*W + old(x[3])*old(y[2])*W2 + old(x[3])*old(y[3])*W3 <= (W-1)*(R_MOD-1) using pre0
+//@ at call madd3 3: ghost mm3 := m
+//@ at call madd3 3: ghost X3 := m*Q3 + c[0] + c[2] + c[1]*W
+//@ at call madd3 3: assert@nov3 X3 < W2 using since(r3), tb2
+//@ at store 59: ghost T3 := (z[0] + z[1]*W + z[2]*W2 + z[3]*W3)
+//@ at store 59: assert@id3 T3*W == T2 + old(x[3])*old(y[0]) + old(x[3])*old(y[1])*W + old(x[3])*old(y[2])*W2 + old(x[3])*old(y[3])*W3 + mm3*R_MOD using since(r3), tb2
+//@ at store 59: assert@tb3 T3 < 2*R_MOD using id3, vy3, v3, tb2
+//@ at store 59: ghost M := mm0 + mm1*W + mm2*W2 + mm3*W3
+//@ at store 59: assert@total T3*W4 == (old(x[0])*old(y[0]) + old(x[0])*old(y[1])*W + old(x[0])*old(y[2])*W2 + old(x[0])*old(y[3])*W3) + (old(x[1])*old(y[0]) + old(x[1])*old(y[1])*W + old(x[1])*old(y[2])*W2 + old(x[1])*old(y[3])*W3)*W + (old(x[2])*old(y[0]) + old(x[2])*old(y[1])*W + old(x[2])*old(y[2])*W2 + old(x[2])*old(y[3])*W3)*W2 + (old(x[3])*old(y[0]) + old(x[3])*old(y[1])*W + old(x[3])*old(y[2])*W2 + old(x[3])*old(y[3])*W3)*W3 + M*R_MOD using id0, id1, id2, id3
+//@ at return *: assert@final I(*z) == T3 && T3 < R_MOD || I(*z) == T3 - R_MOD && T3 >= R_MOD
+//@ at return *: assert@xy I(old(*x))*I(old(*y)) == (old(x[0])*old(y[0]) + old(x[0])*old(y[1])*W + old(x[0])*old(y[2])*W2 + old(x[0])*old(y[3])*W3) + (old(x[1])*old(y[0]) + old(x[1])*old(y[1])*W + old(x[1])*old(y[2])*W2 + old(x[1])*old(y[3])*W3)*W + (old(x[2])*old(y[0]) + old(x[2])*old(y[1])*W + old(x[2])*old(y[2])*W2 + old(x[2])*old(y[3])*W3)*W2 + (old(x[3])*old(y[0]) + old(x[3])*old(y[1])*W + old(x[3])*old(y[2])*W2 + old(x[3])*old(y[3])*W3)*W3 using pre0
+
+//@ func _fromMontGeneric
+//@ props C15
+//@ prelude frint
+//@ ensures I(*z) < R_MOD
+//@ ensures (I(*z) * W4) % R_MOD == I(old(*z)) % R_MOD using total, final
+//@ modifies *z
+//@ at return *: assert@final I(*z) == s4 || I(*z) == s4 - R_MOD
+//@ at call madd0 0: assert (m*Q0 + z[0]) % W == 0
+//@ at store 3: assert I(*z)*W == I(old(*z)) + m*R_MOD
+//@ at store 3: ghost s1 := I(*z)
+//@ at store 3: ghost m1 := m
+//@ at call madd0 1: assert (m*Q0 + z[0]) % W == 0
+//@ at store 7: assert I(*z)*W == s1 + m*R_MOD
+//@ at store 7: ghost s2 := I(*z)
+//@ at store 7: ghost m2 := m
+//@ at call madd0 2: assert (m*Q0 + z[0]) % W == 0
+//@ at store 11: assert I(*z)*W == s2 + m*R_MOD
+//@ at store 11: ghost s3 := I(*z)
+//@ at store 11: ghost m3 := m
+//@ at call madd0 3: assert (m*Q0 + z[0]) % W == 0
+//@ at store 15: assert I(*z)*W == s3 + m*R_MOD
+//@ at store 15: ghost s4 := I(*z)
+//@ at store 15: ghost M := m1 + m2*W + m3*W2 + m*W3
+//@ at store 15: assert@total s4*W4 == I(old(*z)) + M*R_MOD
